@@ -189,14 +189,17 @@ func HarnessC10Files() {
 		cfg.ResolveExtensions = []string{".yaml", ".json"}
 	}
 	zzvrt.VFileData(zzFS+"/schemas/root.json", `{"$id": "https://example.com/root", "type": "object",
-  "properties": {"order": {"$ref": "model/order`+ext+`"}}, "required": ["order"]}`)
+  "properties": {"order": {"$ref": "model/order.v2`+ext+`"}}, "required": ["order"]}`)
 	// a cycle through two files in different directories (order refers back to root)
 	back := zzvrt.Bool()
 	backProp := ""
 	if back {
 		backProp = `, "back": {"$ref": "../root` + ext + `"}`
 	}
-	zzvrt.VFileData(zzFS+"/schemas/model/order.json", `{"$id": "https://example.com/order", "type": "object",
+	// (the referenced name has a dot in its last element; a file named by the text before the
+	// dot sits next to it)
+	zzvrt.VFileData(zzFS+"/schemas/model/order.json", `{"$id": "https://example.com/old-order", "type": "object", "properties": {"price": {"type": "integer"}}}`)
+	zzvrt.VFileData(zzFS+"/schemas/model/order.v2.json", `{"$id": "https://example.com/order", "type": "object",
   "properties": {"price": {"$ref": "types/money`+ext+`"}`+backProp+`}, "required": ["price"]}`)
 	zzvrt.VFileData(zzFS+"/schemas/model/types/money.json", `{"$id": "https://example.com/money", "type": "object",
   "properties": {"code": {"type": "string", "minLength": 3}}, "required": ["code"]}`)
